@@ -12,6 +12,8 @@ All numbers are exact rationals (`n/d`); the real code's floats are sent as thei
   dhitem <id> <k>                        dH of the k-th member of a `set`
   iso <id> n=.. H0=.. H1=..              isothermal reaction of flows n; H0/H1 = recorded stream.H before/after
   adia <id> Q=.. n=.. H0=.. Hgot=.. eps=..   adiabatic reaction; Hgot = recorded stream.H after the H setter
+  adiat <id> Q=.. n=.. H0=..                 adiabatic reaction whose H setter did not return a usable state: flows and target only
+  sethnett <phases|-> V=.. n=..              `stream.Hnet = V` whose H setter did not return a usable state: target only
   sethnet <phases|-> V=.. n=.. Hgot=.. eps=..   `stream.Hnet = V` on flows n; Hgot = recorded stream.H afterwards
 -/
 namespace Driver.C06
@@ -213,6 +215,27 @@ def step (st : St) (line : String) : St × String :=
         let sc := scaleOf st.pkg S n [H0, Hgot, Q] + scaleOf st.pkg S n' []
         (st, s!"n={showRats n'} target={showRat target} Hnet0={showRat Hnet0} Hnet1={showRat Hnet1} resid={showRat resid} sc={showRat sc} hyp={hyp}{thm}{fragileSuffix l}")
     | _, _, _, _, _, _ => (st, "bad-op")
+  | "adiat" :: id :: rest =>
+    match st.find id, ratsField? rest "n", ratField? rest "H0", ratField? rest "Q" with
+    | some d, some n, some H0, some Q =>
+      let S := nSpecies st.pkg d.phases
+      if n.length ≠ S then (st, "bad-op") else
+      let l := reactLenient st.pkg d.basis S d.blocks d.members.length n
+      if l.exactInfeasible && !l.fragile then (st, showErr .infeasible) else
+        let (n', target) := match adiabatic tolF st.pkg d.basis S d.blocks H0 Q n with
+          | .ok p => p
+          | .error _ => (l.n', (hnet st.pkg S H0 n + Q) - hfStream st.pkg S l.n')
+        let Hnet0 := hnet st.pkg S H0 n
+        let sc := scaleOf st.pkg S n [H0, Q] + scaleOf st.pkg S n' []
+        (st, s!"n={showRats n'} target={showRat target} Hnet0={showRat Hnet0} sc={showRat sc}{fragileSuffix l}")
+    | _, _, _, _ => (st, "bad-op")
+  | "sethnett" :: ph :: rest =>
+    match parsePhases ph, ratsField? rest "n", ratField? rest "V" with
+    | some phases, some n, some V =>
+      let S := nSpecies st.pkg phases
+      if n.length ≠ S then (st, "bad-op") else
+      (st, s!"target={showRat (setHnetTarget st.pkg S V n)} sc={showRat (scaleOf st.pkg S n [V])}")
+    | _, _, _ => (st, "bad-op")
   | "sethnet" :: ph :: rest =>
     match parsePhases ph, ratsField? rest "n", ratField? rest "V", ratField? rest "Hgot", ratField? rest "eps" with
     | some phases, some n, some V, some Hgot, some eps =>
